@@ -11,6 +11,7 @@ import NV.C04.LemmasDepth
 import NV.C04.LemmasCost
 import NV.C04.LemmasSizes
 import NV.C04.LemmasStack
+import NV.C04.MapBook
 
 namespace NV.C04
 
@@ -58,6 +59,17 @@ theorem catch_reraises_limit_error (cfg : Cfg) (fuel : Nat) (ctx : Ctx) (body : 
 example : (evaluate { maxCost := 50, maxDepth := 20, stackSize := 100, handlerCatches := true } 1000
     (.catch_ (.catch_ .spin))).1 = .raised .cost := by decide
 
+/-- non-vacuity: the events the theorem speaks about do occur - an ordinary error is caught and reported ... -/
+example : (evaluate { maxCost := 50, maxDepth := 20, stackSize := 100, handlerCatches := false } 100
+    (.seq (.catch_ .err) (.catch_ (.catch_ .throw_)))).2.evs = [.afterCatch .thrown, .afterCatch .plain] := by decide
+
+/-- ... and the hypotheses of `catch_reraises_limit_error` are met by a spinning body (k = cost) and by unbounded
+    recursion (k = deep) -/
+example : let cfg : Cfg := { maxCost := 50, maxDepth := 20, stackSize := 100, handlerCatches := false }
+    (¬ ((St.start cfg).depth - 1 == cfg.maxDepth - 1) = true) ∧
+    (exec cfg 100 .catch_ .spin (pushCatchFrame (St.start cfg))).1 = .raised .cost ∧
+    (exec cfg 100 .catch_ (.recur 0) (pushCatchFrame (St.start cfg))).1 = .raised .deep := by decide
+
 /-- **eval_bounded** (no hypothesis on the budget, no exclusion of program shapes).  The budget the driver runs
     with is the configured value clamped to at least 1 (rc.cpp / set_eval_limit, `clampCost`).  For every
     configured value, every program shape, every configuration and fuel: the instructions executed in one
@@ -67,7 +79,7 @@ theorem eval_bounded (raw : Int) (cfg : Cfg) (hcfg : cfg.maxCost = clampCost raw
     ((evaluate cfg fuel sh).2.ticks : Int) ≤ clampCost raw + sh.safeWeight := by
   have hpos : 0 < (St.start cfg).cost := by
     show 0 < cfg.maxCost
-    rw [hcfg]; unfold clampCost; split <;> omega
+    rw [hcfg]; unfold clampCost clampMin; split <;> omega
   have h := exec_TB cfg fuel .driver (.call 0 sh) (St.start cfg) hpos
   have hphi : phi (St.start cfg) = cfg.maxCost := by simp [phi, St.start]
   have hw : (Sh.call 0 sh).safeWeight = sh.safeWeight := by simp [Sh.safeWeight]
@@ -84,7 +96,7 @@ theorem eval_bounded_exact (raw : Int) (cfg : Cfg) (hcfg : cfg.maxCost = clampCo
 /-- any positive budget bounds the evaluation directly (the clamp makes every configured budget positive) -/
 theorem eval_bounded_of_pos (cfg : Cfg) (fuel : Nat) (sh : Sh) (hpos : 0 < cfg.maxCost) :
     ((evaluate cfg fuel sh).2.ticks : Int) ≤ cfg.maxCost + sh.safeWeight := by
-  have hc : cfg.maxCost = clampCost cfg.maxCost := by unfold clampCost; split <;> omega
+  have hc : cfg.maxCost = clampCost cfg.maxCost := by unfold clampCost clampMin; split <;> omega
   have := eval_bounded cfg.maxCost cfg hc fuel sh
   rw [← hc] at this
   exact this
@@ -111,11 +123,11 @@ theorem stack_checked_pushes_bounded (cfg : Cfg) (fuel : Nat) (sh : Sh) (h5 : 5 
   have hinv : StackInv cfg (St.start cfg) := by
     refine ⟨?_, ?_⟩
     · show (0 : Int) ≤ spEnd cfg
-      unfold spEnd stackSlack; omega
+      unfold spEnd stackSlack stackSlackSrc; omega
     · show (0 : Int) ≤ spEnd cfg + 1
-      unfold spEnd stackSlack; omega
+      unfold spEnd stackSlack stackSlackSrc; omega
   have h := (exec_StackRes cfg fuel .driver (.call 0 sh) (St.start cfg) hinv).1
-  unfold spEnd stackSlack at h
+  unfold spEnd stackSlack stackSlackSrc at h
   unfold evaluate
   constructor <;> omega
 
@@ -208,5 +220,38 @@ theorem array_size_exact (n l : Int) (sz : Nat) (hl : LimitOk l) (h16 : l < 2 ^ 
     unfold toSizeT two64 at hlt hsz
     rw [two64_cast] at hlt hsz
     omega
+
+/-- **map_count_exact**: for every sequence of inserts and in-place `m += m2` on a mapping - including the ones that
+    fail with "Mapping too large" after linking some of the nodes - what `sizeof (m)` and every later size test read
+    (`count`) is the number of nodes the mapping holds, and that number is within the limit. -/
+theorem map_count_exact (limit : Int) (h0 : 0 ≤ limit) (ops : List MapOp) :
+    MapOk limit (mapRun limit ops { count := 0, nodes := 0 }).2 :=
+  mapRun_ok limit ops _ ⟨rfl, by simpa using h0⟩
+
+example : mapRun 20 [.insert true, .absorb 15, .absorb 10, .insert true, .insert false] { count := 0, nodes := 0 } =
+    ([false, false, true, true, false], { count := 20, nodes := 20 }) := by decide
+
+/-! ### bridging lemmas: the literals of the model are the constants found in the source (NV/Gen/C04.lean is
+    regenerated from the guard sites on every run; a changed constant breaks these obligations) -/
+
+/-- `end_of_stack = start_of_stack + size - 5` (src/stack.c) -/
+theorem bridge_stackSlack : stackSlack = (stackSlackSrc : Int) ∧ stackSlackSrc = 5 := ⟨rfl, by decide⟩
+
+/-- the three depth tests compare with `&control_stack[MAX_CALL_DEPTH - 1]`: the offset the model's `pushFrame`,
+    `catch_` and `safe` use -/
+theorem bridge_depthTest : depthTestOffset = 1 ∧ depthTestOffsetFake = 1 ∧ depthTestOffsetContext = 1 := by decide
+
+/-- rc.cpp and set_eval_limit clamp the budget to the same minimum, the one `clampCost` uses -/
+theorem bridge_clamp : clampMin = clampMinEfun ∧ ∀ v : Int, clampCost v = if v < (clampMin : Int) then (clampMin : Int) else v := by
+  exact ⟨by decide, fun v => rfl⟩
+
+/-- safe_apply and safe_call_function_pointer leave the caller the same single tick the model's `safe` leaves -/
+theorem bridge_safeTick : safeTickLeft = 1 ∧ safeTickLeftFunp = 1 := by decide
+
+/-- the error_state bits are distinct single bits (what `hasEs` / `setEs` rely on) -/
+theorem bridge_esBits : esStackFull = 1 ∧ esMaxEvalCost = 2 ∧ esStackFull &&& esMaxEvalCost = 0 := by decide
+
+/-- the `size` field widths behind `toArrSize` / `toBufSize`, and sprintf's buffer bound -/
+theorem bridge_widths : arraySizeBits = 16 ∧ bufferCastBits = 16 ∧ ushrtMax = 2 ^ 16 - 1 := by decide
 
 end NV.C04
